@@ -187,7 +187,10 @@ impl Sess {
     /// with what is observed on the real machine now) and the implementation's answer.
     pub fn apply2(&mut self, line: &str) -> (String, String) {
         let snapshot = self.m.clone();
-        match catch_unwind(AssertUnwindSafe(|| self.apply2_inner(line))) {
+        crate::out::current_op(Some(line));
+        let res = catch_unwind(AssertUnwindSafe(|| self.apply2_inner(line)));
+        crate::out::current_op(None);
+        match res {
             Ok(r) => r,
             Err(_) => {
                 self.m = snapshot;
